@@ -314,6 +314,15 @@ class ConnSpy:
     def __init__(self, gp):
         self.calls = {}
         self.mgrs = []
+        self.gp = gp
+        orig_get_graph = gp.get_graph
+
+        def get_graph(*a, **kw):
+            # get_graph calls itself again after excluding an infeasible combination: only the calls of the last
+            # (successful) pass describe the returned instance
+            self.calls = {}
+            return orig_get_graph(*a, **kw)
+        gp.get_graph = get_graph
         for cc, data in gp._conn_choice_data_map.items():
             mgr = data[0]
             orig = mgr.get_conn_idx
@@ -329,6 +338,10 @@ class ConnSpy:
         self.calls = {}
 
     def remove(self):
+        try:
+            del self.gp.get_graph
+        except AttributeError:
+            pass
         for mgr in self.mgrs:
             try:
                 del mgr.get_conn_idx
@@ -538,7 +551,8 @@ def lean_decode_checks(ctx, P, gp, dvs, samples, dis, cache):
         xi_m = []
         for j in range(n_sel):
             v = int(xi[j])
-            xi_m.append(sel_maps[j][v] if 0 <= v < len(sel_maps[j]) else v)
+            # an inactive variable carries the canonical 0, not an option index
+            xi_m.append((sel_maps[j][v] if 0 <= v < len(sel_maps[j]) else v) if act[j] else v)
         for (i0, i1) in conn_rng:
             xi_m += [int(v) for v in xi[i0:i1]]
         exact = True
